@@ -517,7 +517,7 @@ impl Prop for C14P {
                     _ => crate::gen_prog::GT::Int,
                 };
                 let p = crate::gen_prog::gen_program_with(&mut r, mode, &ty, rec);
-                let h = if idx % 4 != 0 { crate::perturb::perturb(&p.h, &mut r).map_or(p.h.clone(), |x| x.0) } else { p.h.clone() };
+                let h = if idx % 4 != 0 { crate::perturb::perturb_or_edit(&p.h, &mut r).map_or(p.h.clone(), |x| x.0) } else { p.h.clone() };
                 let mut style = crate::printer::Style::varied(&mut r);
                 if r.chance(1, 2) {
                     style.extra_parens = 25;
